@@ -10,7 +10,7 @@ export VERIF_REPO="$REPO"
 interp="C02 C03 C04 C08 C13 C25 C31"; alloc="C12 C13 C14 C03 C04 C25"; serde="C16 C17 C19 C20 C29"; py="C27"
 family() { case "$1" in C02|C03|C08|C25|C31) echo "$interp";; C04) echo "$interp C12";; C12|C13|C14) echo "$alloc";; C16|C17|C19|C20|C29) echo "$serde";; C27) echo "$py";; esac; }
 : > "$OUT"
-for d in seeded/*-agent seeded/*-agent2 seeded/*-agent3 seeded/*-agent4; do
+for d in seeded/*-agent seeded/*-agent2 seeded/*-agent3 seeded/*-agent4 seeded/*-agent5; do
   [ -f "$d/patch.diff" ] || continue
   id=$(basename "$d"); prop=${id%%-*}
   ( cd "$REPO" && git checkout -q -- . && git apply "$HERE/$d/patch.diff" ) || { echo "$id: patch does not apply" >> "$OUT"; continue; }
